@@ -70,6 +70,9 @@ ATOMS = {
     "r=init": ARR_INIT,
     "r[i]=a*i": [A("<p>r[i]", "<p>a * i", [("i", "0", "3")])],
     "r[i]=..n": [A("<p>r[i]", "i + 7", [("i", "0", "<p>n")])],
+    # a loop whose bound is assigned under the same guard as the loop: with the guard false the bound is unset, and
+    # nothing may look at it
+    "if{nn=2;r[i]=..nn}": [["IF", ["s", "<p>a > 1"], [A("nn", "2"), A("<p>r[i]", "i + 5", [("i", "0", "nn")])], None]],
     "n=2": [A("<p>n", "2")],
     "n=0": [A("<p>n", "0")],
     "r[zero-trip]": [A("<p>r[i]", "9", [("i", "2", "1")])],
@@ -117,7 +120,7 @@ CONDS = {
 }
 
 # reduced alphabets for the deeper levels
-CORE_ATOMS = ["a+=1", "b=2a", "u=a+y", "b=u", "a=ifexp", "r[i]=..n", "n=0", "a=r[1]", "u=f(a)",
+CORE_ATOMS = ["a+=1", "b=2a", "u=a+y", "b=u", "a=ifexp", "r[i]=..n", "if{nn=2;r[i]=..nn}", "n=0", "a=r[1]", "u=f(a)",
               "yield a", "fail", "switch aux", "restart", "raise1", "t+=dt", "y=y+a"]
 CORE_CONDS = ["s:a>1", "s3:a<b", "e3:y==0", "s:a"]
 MID_ATOMS = CORE_ATOMS + ["a=0", "a=b-a", "u=3", "r[i]=a*i", "n=2", "r[zero-trip]", "r[n-1]=a", "b=r[n-1]+r[0]",
